@@ -409,8 +409,21 @@ where
             crate::verif::emit("root_node", node.xml_name());
         }
 
-        // write the soap bindings
+        // write the soap bindings; the envelope types are named after the operations, so of several bindings of one
+        // port type (SOAP 1.1 and SOAP 1.2) only one can be written: the one a service uses, else the first
+        let used_by_service = |binding: &Rc<SoapBinding>| self.soap_services.iter().any(|s| Rc::ptr_eq(&s.binding, binding));
+        let clash = |a: &SoapBinding, b: &SoapBinding| a.operations.keys().any(|op| b.operations.contains_key(op));
+        let mut written: Vec<&Rc<SoapBinding>> = vec![];
         for binding in &self.soap_bindings {
+            let yields = !used_by_service(binding)
+                && self
+                    .soap_bindings
+                    .iter()
+                    .any(|other| !Rc::ptr_eq(other, binding) && used_by_service(other) && clash(other, binding));
+            if yields || written.iter().any(|w| clash(w, binding)) {
+                continue;
+            }
+            written.push(binding);
             binding.write_xml(writer)?;
             #[cfg(feature = "verif")]
             crate::verif::emit("binding", Some(&binding.name));
